@@ -441,7 +441,7 @@ Definition sstep_ok (cfg : config) (tol : N) (mem : cache) (file : fstate) (t : 
       let merged := match file_load cfg now file with Ok d => cache_sync mem d | _ => mem end in
       cache_eqb [] (o_mem o) && is_fcache (o_file o) &&
       (if wc then cleanup_agree cfg now tol merged (fstate_cache (o_file o))
-       else cache_eqb merged (fstate_cache (o_file o)))
+       else mem_eqb merged (fstate_cache (o_file o)))     (* an emptied peer is written with no address *)
   | SLoad =>
       mem_eqb mem (o_mem o) &&
       match file, o_loaded o with
